@@ -327,4 +327,17 @@ theorem placementPlace_spec (n : Int) (ex : List SEvent) (ev : SEvent) (t : Task
        exact AP.poolSameW _ _ _ _ _ h0.1 ‹_› (placeTask_same_err _ _ _ _ _ _ ‹_›)
          rfl rfl rfl rfl rfl rfl rfl rfl rfl rfl rfl rfl)
     | (ap_step; exact EF_erase _ _ _)
+
+/-- TASK_PLACEMENT, handled at the clock value `n` (the time of the event). -/
+theorem handleTaskPlacement_spec (n : Int) (ex : List SEvent) (ev : SEvent) (hev : ev.ev.time = n) :
+    KeepsR n ex (handleTaskPlacement ev) := by
+  have h_pp := fun t p g h => placementPlace_spec n ex ev t p g h hev
+  have h_nr := placementNotReady_spec n ex
+  mvcgen [handleTaskPlacement, getGraph, h_pp, h_nr]
+  all_goals first
+    | frame_close
+    | (rs_hyps h => exact h.1)
+    | wk_close
+    | (rs_hyps h => rs_hyps h2 => exact ⟨h, h2⟩)
+
 end ErdosVerif.Model.Sim
